@@ -3,7 +3,7 @@
    non-negative), hence every fault plan, crash, lease revocation, rewind and duplicate delivery; every Store token of the
    resulting trace (prev = the run's persisted record at that moment, None for a new run). *)
 From WF Require Import model.Base model.RunState model.Graph model.EngineBase model.Engine model.Monitors
-  proofs.EngineTokens proofs.EngineProps proofs.Examples.
+  proofs.EngineTokens proofs.EngineProps proofs.Examples proofs.RelayFacts proofs.FaultFree.
 
 (* identity never changes, versions start at 1 and grow by exactly 1 per write, the update time never goes backwards,
    the status description describes the status being written *)
@@ -38,3 +38,16 @@ Print Assumptions C16_fresh_view.
 Theorem C16_nonvacuous : hist_ok ex_ops /\ (3 <= count_stores (trace_of ex_cfg ex_ops))%nat /\ (2 <= count_users (trace_of ex_cfg ex_ops))%nat.
 Proof. exact (conj ex_hist_ok ex_nonvacuous). Qed.
 Print Assumptions C16_nonvacuous.
+
+(* the IF direction of "persisted iff a declared next status is returned with a nil error", for EVERY world: in a fault-free
+   state (empty fault plan, lease held, instance alive) the updater called with a declared destination of the status the run
+   still has (a self-loop included) writes the record — the next status, Running or (terminal) Completed, the object the
+   function left behind, version + 1 — and returns nil; the write is the newest token *)
+Theorem C16_declared_status_is_persisted : forall c cur next run l s,
+  ff s -> lookup_run (o_w s) (r_run run) = Some l -> r_status l = cur -> validate_transition (ec_graph c) cur next = true ->
+  let upd := bump (mkRecord (r_wf run) (r_fid run) (r_run run) (if is_terminal (ec_graph c) next then RSCompleted else RSRunning) next
+                            (r_obj run) (r_created run) (w_now (o_w s)) (r_ver run) (r_reason run) next) in
+  exists s', updater c cur next run s = (Ok tt, s') /\ ff s' /\ o_w s' = do_store c (o_w s) upd /\
+             exists t0, o_trace s' = TStore (Some l) (stamp c (o_w s) upd) ROk :: t0 :: o_trace s.
+Proof. exact updater_ff. Qed.
+Print Assumptions C16_declared_status_is_persisted.
